@@ -259,9 +259,42 @@ def make_case(rnd, idx, table, special=None):
     return c
 
 
+def interleave(rnd, own_lines, other):
+    """file order of the field's lines among other fields' lines: blocked, split blocks, round-robin (file sorted by
+    season: F1 1980, F2 1980, F1 1981, ...) or a random merge; the simulated field at any position"""
+    mode = rnd.choice(["blocked", "blocked", "split", "round", "round", "random"])
+    n = len(own_lines)
+    out = []
+    if mode in ("blocked", "split"):
+        out = [("other", other()) for _ in range(rnd.choice([0, 1, 3]))]
+        split = rnd.randrange(1, n) if (mode == "split" and n > 1) else None
+        for i, ln in enumerate(own_lines):
+            if split is not None and i == split:
+                out += [("other", other()) for _ in range(rnd.choice([1, 2]))]
+            out.append(("own", ln))
+        out += [("other", other()) for _ in range(rnd.choice([0, 2]))]
+    elif mode == "round":
+        nf = rnd.choice([1, 2, 3])                  # number of other fields in the round
+        pos = rnd.randrange(0, nf + 1)              # position of the simulated field inside each round
+        for ln in own_lines:
+            rnd_ = [("other", other()) for _ in range(nf)]
+            rnd_.insert(pos, ("own", ln))
+            out += rnd_
+        if rnd.random() < 0.5:
+            out += [("other", other()) for _ in range(nf)]
+    else:
+        slots = sorted(rnd.randrange(0, n + 1) for _ in range(rnd.randrange(n, 2 * n + 3)))
+        k = 0
+        for i in range(n + 1):
+            while k < len(slots) and slots[k] == i:
+                out.append(("other", other())); k += 1
+            if i < n:
+                out.append(("own", own_lines[i]))
+    return out
+
+
 def layout(case, kind, own_lines):
-    """file order: other fields before / between (splitting the own block) / after"""
-    rnd = random.Random(case["layout_seed"] + hash(kind) % 1000)
+    rnd = random.Random(case["layout_seed"] + {"fert": 1, "till": 2, "irr": 3, "crop": 4}[kind])
     f = case["fmt"]
     def other():
         d = numday(case["B"] + rnd.randrange(-300, 700))
@@ -270,15 +303,10 @@ def layout(case, kind, own_lines):
             return "%-9s %3d %-3s %s" % (o, rnd.randrange(10, 200), "KAS", fmt_date(d, f))
         if kind == "till":
             return "%-9s %2d %d   %s" % (o, 10, 1, fmt_date(d, f))
+        if kind == "crop":
+            return "%-9s %-3s %s %s 000 000 %d" % (o, rnd.choice(["SM", "WW", "ZR", "K"]), fmt_date(d, f), fmt_date(d + datetime.timedelta(days=120), f), rnd.choice([0, 1]))
         return "%-9s %2d %3d %s" % (o, 15, 20, fmt_date(d, f))
-    out = [("other", other()) for _ in range(rnd.choice([0, 1, 3]))]
-    split = rnd.randrange(1, len(own_lines)) if len(own_lines) > 2 and rnd.random() < 0.3 else None
-    for i, ln in enumerate(own_lines):
-        if split is not None and i == split:
-            out += [("other", other()) for _ in range(rnd.choice([1, 2]))]
-        out.append(("own", ln))
-    out += [("other", other()) for _ in range(rnd.choice([0, 2]))]
-    return out
+    return interleave(rnd, own_lines, other)
 
 
 def write_project(ex, case):
@@ -305,12 +333,15 @@ def write_project(ex, case):
     open(os.path.join(dst, "poly_%s.txt" % name), "w").write(
         "Polyg SID  Field_ID  GH GL Ir comment\n10002 001 %sX   99 99 0 other\n10001 001 %s    99 99 1 own\nend\n" % (fid, fid))
     rows = []
+    arnd = random.Random(case["layout_seed"] + 77)
+    case["autorg"] = [1 if arnd.random() < 0.4 else 0 for _ in case["crops"]]     # "organic fertiliser" flag: without effect while AutoFertilization is off
     for k, (code, sow, har) in enumerate(case["crops"]):
         sw = fmt_date(sow, f) if sow else fmt_date(har - datetime.timedelta(days=120), f)
-        rows.append("%-9s %-3s %s %s %s 0" % (fid, code, sw, fmt_date(har, f), "080 050" if k == 0 else "000 000"))
-    other = "%-9s SM  %s %s 080 050 0" % (fid + "X", fmt_date(case["begin"] - datetime.timedelta(days=130), f), fmt_date(case["begin"], f))
+        rows.append("%-9s %-3s %s %s %s %d" % (fid, code, sw, fmt_date(har, f), "080 050" if k == 0 else "000 000", case["autorg"][k]))
+    cl = layout(case, "crop", rows)
+    case["crop_layout"] = cl
     open(os.path.join(dst, "crop_%s.txt" % name), "w").write(
-        "Field_ID    crp  sowing harvst Rex yld autorg variety comment\n" + other + "\n" + "".join(r + "\n" for r in rows) + "end\n")
+        "Field_ID    crp  sowing harvst Rex yld autorg variety comment\n" + "".join(l + "\n" for _, l in cl) + "end\n")
     annual = "3110" if f < 2 else "1031"
     return ("project=%s WeatherFolder=historical soilId=%s fcode=%s plotNr=10001 Altitude=73 Latitude=52.6 poligonID=1 "
             "CropFileFormat=txt AutoIrrigation=0 AutoFertilization=0 AutoSowingHarvest=0 AutoHarvest=0 ManagementEvents=1 "
@@ -389,13 +420,14 @@ def _coq_run(c, slots):
             "   r_fert := [%s];\n   r_till := [%s];\n   r_irr := [%s];\n"
             "   o_ztdg := %s; o_fpay := %s;\n   o_einte := %s; o_eint := %s; o_tilart := %s;\n"
             "   o_ztbr := %s; o_breg := %s; o_brkz := %s;\n   o_ffired := %s; o_tfired := %s; o_ifired := %s;\n"
-            "   o_fjump := %s;\n   o_ijump := %s |}"
+            "   o_fjump := %s;\n   o_ijump := %s;\n   o_harv_arrays := %s |}"
             % (ini["beginn"], ini["ende"], slots, hexf(float(c["fertilization"])), waterlib.fl(ini["depos"]), waterlib.fl(ini["dt"]),
                "; ".join("(%s, %d%%uint63, %s)" % (k, d, p) for (k, d, p) in _triples(c["fert_layout"], fconv)),
                "; ".join("(%s, %d%%uint63, %s)" % (k, d, p) for (k, d, p) in _triples(c["till_layout"], tconv)),
                "; ".join("(%s, %d%%uint63, %s)" % (k, d, p) for (k, d, p) in _triples(c["irr_layout"], iconv)),
                ints(ini["ztdg"]), fpay, ints(ini["einte"]), fls(ini["eint"]), ints(ini["tilart"]),
-               ints(ini["ztbr"]), fls(ini["breg"]), fls(ini["brkz"]), fired("fert"), fired("till"), fired("irr"), fjump, ijump))
+               ints(ini["ztbr"]), fls(ini["breg"]), fls(ini["brkz"]), fired("fert"), fired("till"), fired("irr"), fjump, ijump,
+               "[" + "; ".join("(%s, %s)" % (ints(e["ztdg"]), ints(e["einte"])) for e in c["ev"] if e["kind"] == "harv") + "]"))
 
 
 def _triples(layout_, conv):
@@ -418,7 +450,7 @@ def _table_coq(table):
 HDR = ["From Coq Require Import ZArith List Bool Floats Uint63 String.", "From Hermes Require Import Num SchedModel C10Corr.",
        "Import ListNotations.", "Open Scope float_scope."]
 MASK = ["fertiliser-dates", "fertiliser-split", "fertiliser-firings", "tillage-dates", "tillage-payload", "tillage-firings",
-        "irrigation-arrays", "irrigation-firings", "DSUMM/NH4Sum-jump", "REGEN/C1-jump"]
+        "irrigation-arrays", "irrigation-firings", "DSUMM/NH4Sum-jump", "REGEN/C1-jump", "date-arrays-after-harvest"]
 
 
 def correspond(ctx):
@@ -436,6 +468,13 @@ def correspond(ctx):
         if cs["init"]["autofert"] or cs["init"]["autoirri"] or cs["init"]["automan"] or cs["init"]["autohar"]:
             c.mismatches.append({"kind": "automation-switches", "case": cs["idx"], "what": "all four switches are off on the batch line",
                                  "state": [cs["init"][k] for k in ("automan", "autofert", "autoirri", "autohar")]})
+        # rotation arrays after Input against the rows of the field in file order (python twin of the rotation reader)
+        nc = len(cs["crops"])
+        want_r = ([0] + [daynum(s_) for _, s_, _ in cs["crops"][1:]] + [0], [daynum(h_) for _, _, h_ in cs["crops"]] + [0])
+        got_r = (cs["init"]["saat"][:nc + 1], cs["init"]["ernte"][:nc + 1])
+        if got_r != want_r:
+            c.mismatches.append({"kind": "rotation-arrays", "case": cs["idx"], "observed (SAAT, ERNTE)": got_r, "rotation file rows of the field": want_r,
+                                 "crop_file": [l for _, l in cs["crop_layout"]]})
         if cs["init"]["beginn"] != cs["B"] or cs["init"]["ende"] != cs["E"]:
             c.mismatches.append({"kind": "period", "case": cs["idx"], "expected": [cs["B"], cs["E"]],
                                  "observed": [cs["init"]["beginn"], cs["init"]["ende"]]})
@@ -477,7 +516,7 @@ def correspond(ctx):
             else:
                 cs = good[idx]
                 c.mismatches.append({"kind": "whole-run", "case": cs["idx"], "special": cs["special"],
-                                     "differs": [MASK[j] for j in range(10) if mask >> j & 1],
+                                     "differs": [MASK[j] for j in range(11) if mask >> j & 1],
                                      "line": "c10_%d" % cs["idx"], "fert": cs["fert"], "till": cs["till"], "irr": cs["irr"],
                                      "begin": str(cs["begin"]), "end": str(cs["end"]), "format": FMTS[cs["fmt"]]})
     # organic fertiliser of automatic management and the crop-skip branch: runs with automatic fertilisation
